@@ -19,13 +19,15 @@ def pre(tier):
     return dict(oracle_checked=ref.self_check(2))
 
 
-def h_duality(env, N, r, family='valid'):
+def h_duality(env, N, r, family='valid', np_rank=False):
+    """np_rank: the rank is handed over as a numpy integer (as mask.sum() or an element of numpy.arange gives it)"""
     from .c04 import family_map, S_
     M = Mods(env)
     mg, mp, v = family_map(env, 'map', N, family)
     env.assume(v, 'map valid')
     m = M.st.CliffordMap(S_(env, mg), S_(env, mp))
-    res = env.run(lambda: m.to_state(r))
+    r_arg = np.int64(r) if (np_rank and r is not None) else r
+    res = env.run(lambda: m.to_state(r_arg))
     env.goal('no_exception', b_not(res.raised))
     if res.value is None:
         return
@@ -53,10 +55,11 @@ def _expect_in_state(s, N, g, p):
     return ref.ref_expect(s.gs, s.ps, s.r, N, oarr(g), p)
 
 
-def h_named_state(env, N, which):
+def h_named_state(env, N, which, np_N=False):
     M = Mods(env)
     n0 = len(env.coins()) if env.symbolic else 0
-    res = env.run(lambda: getattr(M.st, which)(N))
+    N_arg = np.int64(N) if np_N else N
+    res = env.run(lambda: getattr(M.st, which)(N_arg))
     env.goal('no_exception', b_not(res.raised))
     if res.value is None:
         return
@@ -137,9 +140,10 @@ h_named_state.uses_rng = True
 h_named_state.variation_goals = {'sign%d_flips_with_its_coin' % i: 'signs' for i in range(4)}
 
 
-def h_random_pauli_state(env, N, r):
+def h_random_pauli_state(env, N, r, np_rank=False):
     M = Mods(env)
-    res = env.run(lambda: M.st.random_pauli_state(N, r))
+    r_arg = np.int32(r) if (np_rank and r is not None) else r
+    res = env.run(lambda: M.st.random_pauli_state(N, r_arg))
     env.goal('no_exception', b_not(res.raised))
     if res.value is None:
         return
@@ -275,6 +279,11 @@ def jobs(tier):
             J.append(dict(harness=('c12', 'h_duality'), params=dict(N=N, r=r), timeout_s=300, cost=10))
     for r in (None, 2):
         J.append(dict(harness=('c12', 'h_duality'), params=dict(N=3, r=r, family='rotation'), timeout_s=300, cost=10))
+    for N in (1, 2):
+        J.append(dict(harness=('c12', 'h_duality'), params=dict(N=N, r=1, np_rank=True, family='valid' if N == 1 else 'rotation'), timeout_s=300, cost=10))
+        J.append(dict(harness=('c12', 'h_random_pauli_state'), params=dict(N=N, r=1, np_rank=True)))
+        for which in ('zero_state', 'maximally_mixed_state', 'ghz_state'):
+            J.append(dict(harness=('c12', 'h_named_state'), params=dict(N=N, which=which, np_N=True)))
     for N in (1, 2, 3):
         for which in ('zero_state', 'one_state', 'ghz_state', 'maximally_mixed_state', 'random_bit_state'):
             J.append(dict(harness=('c12', 'h_named_state'), params=dict(N=N, which=which)))
